@@ -2,6 +2,8 @@ package sx
 
 import (
 	"fmt"
+	"os"
+	"strings"
 	"go/constant"
 	"go/token"
 	"go/types"
@@ -34,8 +36,10 @@ func (x *Exec) runState(s *State) {
 		}
 		ins := blk.Instrs[f.PC]
 		x.NInstr++
-		if x.cfg.Trace {
-			fmt.Printf("  [%s b%d:%d] %s\n", f.Info.Fn.Name(), f.Block, f.PC, ins)
+		x.curSite = x.siteOf(ins)
+		x.allocSeq = 0
+		if x.cfg.Trace || (traceFn != "" && strings.Contains(f.Info.Fn.Name(), traceFn)) {
+			fmt.Printf("  [%s b%d:%d] tags=%v %s\n", f.Info.Fn.Name(), f.Block, f.PC, s.Tags, ins)
 		}
 		cont := x.step(s, f, ins)
 		if !cont {
@@ -127,7 +131,7 @@ func (x *Exec) constVal(c *ssa.Const) Value {
 func (x *Exec) globalPtr(s *State, g *ssa.Global) *PtrVal {
 	id, ok := x.globals[g]
 	if !ok {
-		id = x.nextOb
+		id = 1<<60 + x.nextOb
 		x.nextOb++
 		x.globals[g] = id
 	}
@@ -399,6 +403,9 @@ func (x *Exec) step(s *State, f *Frame, ins ssa.Instruction) bool {
 func (x *Exec) doReturn(s *State, res Value) {
 	t := s.thread()
 	f := t.Frames[len(t.Frames)-1]
+	if os.Getenv("GOSMT_DEBUGRET") != "" && strings.Contains(f.Info.Fn.String(), os.Getenv("GOSMT_DEBUGRET")) {
+		fmt.Printf("RET %s tags=%v guardconst=%v res=%s\n", f.Info.Fn.Name(), s.Tags, s.G.IsTrue(), x.showVal(res))
+	}
 	t.Frames = t.Frames[:len(t.Frames)-1]
 	if f.OnReturn != nil {
 		f.OnReturn(s, res)
@@ -917,4 +924,33 @@ func (x *Exec) sliceElems(s *State, sv *SliceVal) ([]Value, bool) {
 		out[i] = r
 	}
 	return out, true
+}
+
+var traceFn = os.Getenv("GOSMT_TRACEFN")
+
+func (x *Exec) showVal(v Value) string {
+	switch c := v.(type) {
+	case nil:
+		return "<none>"
+	case *Term:
+		return x.tb.Show(c)
+	case *StrVal:
+		if s, ok := x.concreteStr(c); ok {
+			return fmt.Sprintf("%q", s)
+		}
+		return "str(len=" + x.tb.Show(c.Len) + ")"
+	case *TupleVal:
+		r := "("
+		for _, e := range c.E {
+			r += x.showVal(e) + ", "
+		}
+		return r + ")"
+	case *StructVal:
+		r := "{"
+		for _, e := range c.F {
+			r += x.showVal(e) + ", "
+		}
+		return r + "}"
+	}
+	return fmt.Sprintf("%T", v)
 }
